@@ -69,4 +69,12 @@ theorem aspApplyG_ref (shape : Nat × Nat) (tf : Nat → Nat → K) (f : Array (
     aspApplyG aspOpFlagsRef e nrm shape tf f = aspApply e shape tf f := by
   simp [aspApplyG, aspOpFlagsRef]
 
+theorem mdft2_congr (w0 w1 : AxisWiring) (shp samples : Nat × Nat) (sc0 sc1 a0 a1 : R) (shift : R × R)
+    {f g : Nat → Nat → K} (h : ∀ j i, j < shp.1 → i < shp.2 → f j i = g j i) (k l : Nat) :
+    mdft2 e nrm w0 w1 shp samples sc0 sc1 a0 a1 shift f k l = mdft2 e nrm w0 w1 shp samples sc0 sc1 a0 a1 shift g k l := by
+  simp only [mdft2, sumTo_eq]
+  exact Finset.sum_congr rfl fun j hj => Finset.sum_congr rfl fun i hi => by
+    rw [h j i (Finset.mem_range.1 hj) (Finset.mem_range.1 hi)]
+
+
 end C01
